@@ -5,6 +5,10 @@ Property theorems for the **"simple Callable signatures" part of C01 (soundness)
 independence)**, and the C08-flavoured totality of that part.  Model: `Model/Callable.lean` (parameterised by the generated
 `Gen/Callable.lean`), spec: `Spec/Callable.lean`, regions: `Spec/CallableRegions.lean`, lemmas: `Lemmas/Callable.lean`.
 
+This is the version for the tree with the repairs F1-F5 (`fixes/Callable_fix_F1.diff` … `F5.diff`): five of the six regions of the
+unrepaired tree are gone — their refutations are replaced by positive theorems (`fixed_*`, `isSubtypeT_exact`,
+`callable_without_name_checked`, `spelling_invariant`) — and the guard of `callable_complete_partial` is the one region left.
+
 All theorems quantify over every class table satisfying `Env.WF` (the driver checks `WF` on every table the harness sends),
 every annotation and every value of the model — no bound on arity, nesting depth of the types, or length of list / dict values.
 -/
@@ -24,8 +28,7 @@ theorem cfg_lambda_test : lambdaTestsCallableFirst = true ∧ lambdaName = "<lam
 theorem cfg_required_is_no_default : requiredIsNoDefault = true ∧ ellipsisSkipsParams = true := by decide
 theorem cfg_subtype_directions : paramSubIsDeclared = true ∧ syncRetSubIsDeclared = true ∧ coroRetSubIsDeclared = true ∧
     argSubIsSub = true ∧ nonGenericSubFirst = true ∧ genericSubFirst = true := by decide
-theorem cfg_subtype_union : superUnionTyping = true ∧ superUnionPep604 = true ∧ subUnionTyping = true ∧ subUnionPep604 = true ∧
-    unionMemberExact = true := by decide
+theorem cfg_subtype_union : superUnionTyping = true ∧ superUnionPep604 = true ∧ subUnionTyping = true ∧ subUnionPep604 = true := by decide
 theorem cfg_subtype_generic : genericOriginGuarded = false ∧ argsQuantAll = true ∧ argsLazy = true := by decide
 theorem cfg_class_of_annotation : anyMapsToObject = true ∧ ellipsisMapsToObject = true ∧ typingOriginUsed = true := by decide
 theorem cfg_convert : convertResubscriptsFlatArgs = true := by decide
@@ -97,30 +100,20 @@ def Guard (env : Env) (x : Expected) (v : Val) : Prop := regions env x v = []
 
 instance (env : Env) (x : Expected) (v : Val) : Decidable (Guard env x v) := by unfold Guard; infer_instance
 
-theorem guard_split {env : Env} {x : Expected} {v : Val} (hg : Guard env x v) :
-    spellingOk env x.sp x.e = true ∧
-    (match v with
-     | .leaf l => leafRegions env l x.e
-     | .list xs => xs.flatMap (fun l => leafRegions env l x.e)
-     | .dict kvs => kvs.flatMap (fun kv => leafRegions env kv.2 x.e)) = [] := by
-  unfold Guard regions at hg
-  rw [List.append_eq_nil_iff] at hg
-  refine ⟨?_, hg.2⟩
-  have h1 := hg.1
-  unfold spellingOk
-  cases hc : (x.sp == Spelling.abc && (abcRoute env x.e).isSome) <;> simp [hc] at h1 ⊢
-
-/-- **C02, Callable part (guarded).** Outside the named regions every conforming value is accepted. -/
+/-- **C02, Callable part (guarded).** Outside the one region left (a coroutine function against `Callable[.., Any]` /
+    `Callable[.., object]`) every conforming value is accepted — in either Callable spelling, in every wrapper. -/
 theorem callable_complete_partial {env : Env} (wf : env.WF) (x : Expected) (v : Val)
     (hg : Guard env x v) (h : conforms env x v = true) : check env x v = .ok true := by
-  obtain ⟨hs, hr⟩ := guard_split hg
   obtain ⟨wrap, sp, e⟩ := x
-  simp only at hs hr
+  have hr : (match v with
+     | .leaf l => leafRegions env l e
+     | .list xs => xs.flatMap (fun l => leafRegions env l e)
+     | .dict kvs => kvs.flatMap (fun kv => leafRegions env kv.2 e)) = [] := hg
   unfold check
   cases wrap with
   | bare =>
     cases v with
-    | leaf l => simpa [Val.asLeaf] using leafCheck_complete wf sp e l hs hr (by simpa [conforms] using h)
+    | leaf l => simpa [Val.asLeaf] using leafCheck_complete wf sp e l hr (by simpa [conforms] using h)
     | list xs => simp [conforms] at h
     | dict kvs => simp [conforms] at h
   | optional =>
@@ -134,29 +127,70 @@ theorem callable_complete_partial {env : Env} (wf : env.WF) (x : Expected) (v : 
           cases noneGuard <;> cases lambdaShortcut <;>
             simp [isLambda, checkSig, sigFails, catches, sigCaught]
         obtain ⟨b, h0⟩ := h0
-        cases sp with
-        | typing => simp [leafCheck, h0]
-        | abc =>
-          unfold leafCheck
-          cases hrt : abcRoute env e with
-          | none => simp [h0]
-          | some ex => simp [spellingOk, hrt] at hs
+        simp [leafCheck_eq, h0]
       | nonCallable => simp [conforms, conformsLeaf] at h
       | callable name sig coro =>
-        have := leafCheck_complete wf sp e (.callable name sig coro) hs hr (by simpa [conforms] using h)
+        have := leafCheck_complete wf sp e (.callable name sig coro) hr (by simpa [conforms] using h)
         simp [Val.asLeaf, this]
     | list xs => simp [conforms] at h
     | dict kvs => simp [conforms] at h
   | listOf =>
     cases v with
     | leaf l => simp [conforms] at h
-    | list xs => simpa using checkList_complete wf sp e xs hs hr (by simpa [conforms] using h)
+    | list xs => simpa using checkList_complete wf sp e xs hr (by simpa [conforms] using h)
     | dict kvs => simp [conforms] at h
   | dictStrOf =>
     cases v with
     | leaf l => simp [conforms] at h
     | list xs => simp [conforms] at h
-    | dict kvs => simpa using checkDict_complete wf sp e kvs hs hr (by simpa [conforms] using h)
+    | dict kvs => simpa using checkDict_complete wf sp e kvs hr (by simpa [conforms] using h)
+
+/-- the guard holds whenever the expected return type is not a top type — in particular for every annotation whose return type
+    is a class other than `object`, a Union, `List[..]`, `Awaitable[..]`, `Coroutine[..]` -/
+theorem guard_of_ret_not_top (env : Env) (x : Expected) (v : Val) (h : isTop env x.e.ret = false) : Guard env x v := by
+  have hl : ∀ l, leafRegions env l x.e = [] := by
+    intro l
+    cases l with
+    | none => rfl
+    | nonCallable => rfl
+    | callable n s k => cases s <;> simp [leafRegions, retRegions, h]
+  unfold Guard regions
+  cases v with
+  | leaf l => exact hl l
+  | list xs => simp [hl]
+  | dict kvs => simp [hl]
+
+/-- … and for every value that contains no coroutine function -/
+def noCoroutine : Val → Bool
+  | .leaf (.callable _ _ coro) => !coro
+  | .leaf _ => true
+  | .list xs => xs.all (fun l => match l with | .callable _ _ coro => !coro | _ => true)
+  | .dict kvs => kvs.all (fun kv => match kv.2 with | .callable _ _ coro => !coro | _ => true)
+
+theorem guard_of_no_coroutine (env : Env) (x : Expected) (v : Val) (h : noCoroutine v = true) : Guard env x v := by
+  have hl : ∀ l : CVal, (match l with | .callable _ _ coro => !coro | _ => true) = true → leafRegions env l x.e = [] := by
+    intro l hl
+    cases l with
+    | none => rfl
+    | nonCallable => rfl
+    | callable n s k =>
+      simp only [Bool.not_eq_true'] at hl
+      cases s <;> simp [leafRegions, retRegions, hl]
+  unfold Guard regions
+  cases v with
+  | leaf l =>
+    cases l with
+    | none => rfl
+    | nonCallable => rfl
+    | callable n s k => exact hl _ (by simpa [noCoroutine] using h)
+  | list xs =>
+    simp only [noCoroutine, List.all_eq_true] at h
+    simp only [List.flatMap_eq_nil_iff]
+    exact fun l hm => hl l (h l hm)
+  | dict kvs =>
+    simp only [noCoroutine, List.all_eq_true] at h
+    simp only [List.flatMap_eq_nil_iff]
+    exact fun kv hm => hl kv.2 (h kv hm)
 
 /-- under the guard the model decides exactly conformance -/
 theorem callable_iff_partial {env : Env} (wf : env.WF) (x : Expected) (v : Val) (hg : Guard env x v) :
@@ -231,73 +265,58 @@ def pStr : FParam := ⟨.ty (.cls 4), false⟩
 def callable_complete_full : Prop :=
   ∀ (env : Env), env.WF → ∀ (x : Expected) (v : Val), conforms env x v = true → check env x v = .ok true
 
-/-- `def f() -> bool` vs `Callable[[], Union[int, str]]`: conforms (a bool is an int), rejected (`bool in (int, str)` is False) -/
-theorem complete_fails_unionNotExactMember :
-    conforms demoEnv (cb (some []) (.union false [2, 4])) (fn [] (.ty (.cls 3))) = true ∧
-    check demoEnv (cb (some []) (.union false [2, 4])) (fn [] (.ty (.cls 3))) = .ok false ∧
-    regions demoEnv (cb (some []) (.union false [2, 4])) (fn [] (.ty (.cls 3))) = [.unionNotExactMember] := by decide
-
-/-- `def f(a: bool) -> None` vs `Callable[[Union[int, str]], None]`: the same defect in a parameter position -/
-theorem complete_fails_unionNotExactMember_param :
-    conforms demoEnv (cb (some [.union false [2, 4]]) (.cls 1)) (fn [pBool] .none) = true ∧
-    check demoEnv (cb (some [.union false [2, 4]]) (.cls 1)) (fn [pBool] .none) = .ok false := by decide
-
-/-- `def f() -> Union[bool, int]` vs `Callable[[], int]`: conforms, but `issubclass(typing.Union, int)` raises TypeError
-    (wrapped into PedanticTypeCheckException); spelled `bool | int` it is answered False -/
-theorem complete_fails_declaredUnionVsClass :
-    conforms demoEnv (cb (some []) (.cls 2)) (fn [] (.ty (.union false [3, 2]))) = true ∧
-    check demoEnv (cb (some []) (.cls 2)) (fn [] (.ty (.union false [3, 2]))) = .raised .typeError ∧
-    check demoEnv (cb (some []) (.cls 2)) (fn [] (.ty (.union true [3, 2]))) = .ok false ∧
-    regions demoEnv (cb (some []) (.cls 2)) (fn [] (.ty (.union false [3, 2]))) = [.declaredUnionVsClass] := by decide
-
-/-- `def f() -> List[int]` vs `Callable[[], list]`: conforms, rejected (1 type argument vs 0) -/
-theorem complete_fails_genericVsRawClass :
-    conforms demoEnv (cb (some []) (.cls 5)) (fn [] (.ty (.gen1 0 (.cls 2)))) = true ∧
-    check demoEnv (cb (some []) (.cls 5)) (fn [] (.ty (.gen1 0 (.cls 2)))) = .ok false ∧
-    regions demoEnv (cb (some []) (.cls 5)) (fn [] (.ty (.gen1 0 (.cls 2)))) = [.genericVsRawClass] := by decide
-
-/-- `functools.partial(f)` / an instance with `__call__(self, a: int) -> str` vs `Callable[[int], str]`: conforms, but
-    `_is_lambda` reads `obj.__name__` → AttributeError.  (Stated relative to the generated fact: once the name is read with a
-    default, the left disjunct holds and the region is empty of failures.) -/
-theorem complete_fails_callableWithoutName :
-    lambdaNameGuarded = true ∨
-    (conforms demoEnv (cb (some [.cls 2]) (.cls 4)) (fn [pInt] (.ty (.cls 4)) false .missing) = true ∧
-     check demoEnv (cb (some [.cls 2]) (.cls 4)) (fn [pInt] (.ty (.cls 4)) false .missing) = .raised .attributeError ∧
-     regions demoEnv (cb (some [.cls 2]) (.cls 4)) (fn [pInt] (.ty (.cls 4)) false .missing) = [.callableWithoutName]) := by decide
-
-/-- `async def f(a: int) -> str` vs `Callable[..., Any]`: conforms (everything is an `Any`), rejected -/
+/-- the region that stays open: `async def f(a: int) -> str` vs `Callable[..., Any]` conforms (everything is an `Any`), rejected -/
 theorem complete_fails_asyncVsTop :
     conforms demoEnv (cb none .any) (fn [pInt] (.ty (.cls 4)) true) = true ∧
     check demoEnv (cb none .any) (fn [pInt] (.ty (.cls 4)) true) = .ok false ∧
     regions demoEnv (cb none .any) (fn [pInt] (.ty (.cls 4)) true) = [.asyncVsTop] := by decide
 
-/-- `def f() -> str` vs `collections.abc.Callable[[], str]`: conforms, TypeError inside `convert_to_typing_types`; with the
-    typing spelling it is accepted -/
-theorem complete_fails_abcConvert :
-    conforms demoEnv (cb (some []) (.cls 4) .abc) (fn [] (.ty (.cls 4))) = true ∧
-    check demoEnv (cb (some []) (.cls 4) .abc) (fn [] (.ty (.cls 4))) = .raised .typeError ∧
-    check demoEnv (cb (some []) (.cls 4) .typing) (fn [] (.ty (.cls 4))) = .ok true ∧
-    regions demoEnv (cb (some []) (.cls 4) .abc) (fn [] (.ty (.cls 4))) = [.abcConvert] := by decide
-
-/-- `def f(a: list) -> str` vs `collections.abc.Callable[[list], str]`: ValueError('Missing type arguments') -/
-theorem complete_fails_abcConvert_bare :
-    conforms demoEnv (cb (some [.cls 5]) (.cls 4) .abc) (fn [⟨.ty (.cls 5), false⟩] (.ty (.cls 4))) = true ∧
-    check demoEnv (cb (some [.cls 5]) (.cls 4) .abc) (fn [⟨.ty (.cls 5), false⟩] (.ty (.cls 4))) = .raised .valueError := by decide
-
 theorem callable_complete_full_false : ¬ callable_complete_full := by
   intro h
-  have := h demoEnv demoEnv_wf _ _ complete_fails_unionNotExactMember.1
-  rw [complete_fails_unionNotExactMember.2.1] at this
+  have := h demoEnv demoEnv_wf _ _ complete_fails_asyncVsTop.1
+  rw [complete_fails_asyncVsTop.2.1] at this
   cases this
+
+/-! ## the repaired regions: positive theorems in place of the former refutations -/
+
+/-- **F3 / F4 / F5** (`unionNotExactMember`, `declaredUnionVsClass`, `genericVsRawClass`): the model of `_is_subtype` never raises
+    and decides exactly the spec relation `subTy` — for every declared and expected type of the fragment, to any depth: a type
+    is a subtype of a Union iff it is a subtype of some member, a Union is a subtype iff every member is, `G[t]` is a subtype of
+    every class its origin is a subclass of. -/
+theorem subtype_exact {env : Env} (wf : env.WF) (a : Ann) (t : TA) : isSubtype env a t = .ok (declSub env a t) :=
+  isSubtype_exact wf a t
+
+/-- the former witnesses, now accepted -/
+theorem fixed_unionNotExactMember :      -- `def f() -> bool` vs `Callable[[], Union[int, str]]`
+    check demoEnv (cb (some []) (.union false [2, 4])) (fn [] (.ty (.cls 3))) = .ok true := by decide
+theorem fixed_unionNotExactMember_param :  -- `def f(a: bool) -> None` vs `Callable[[Union[int, str]], None]`
+    check demoEnv (cb (some [.union false [2, 4]]) (.cls 1)) (fn [pBool] .none) = .ok true := by decide
+theorem fixed_declaredUnionVsClass :     -- `def f() -> Union[bool, int]` (either spelling) vs `Callable[[], int]`; `Union[bool, str]` still rejected
+    check demoEnv (cb (some []) (.cls 2)) (fn [] (.ty (.union false [3, 2]))) = .ok true ∧
+    check demoEnv (cb (some []) (.cls 2)) (fn [] (.ty (.union true [3, 2]))) = .ok true ∧
+    check demoEnv (cb (some []) (.cls 2)) (fn [] (.ty (.union false [3, 4]))) = .ok false := by decide
+theorem fixed_genericVsRawClass :        -- `def f() -> List[int]` vs `Callable[[], list]`; vs `Callable[[], str]` still rejected
+    check demoEnv (cb (some []) (.cls 5)) (fn [] (.ty (.gen1 0 (.cls 2)))) = .ok true ∧
+    check demoEnv (cb (some []) (.cls 4)) (fn [] (.ty (.gen1 0 (.cls 2)))) = .ok false := by decide
+theorem fixed_callableWithoutName :      -- `functools.partial(f)`, `def f(a: int) -> str`, vs `Callable[[int], str]` / `Callable[[str], str]`
+    check demoEnv (cb (some [.cls 2]) (.cls 4)) (fn [pInt] (.ty (.cls 4)) false .missing) = .ok true ∧
+    check demoEnv (cb (some [.cls 4]) (.cls 4)) (fn [pInt] (.ty (.cls 4)) false .missing) = .ok false := by decide
+theorem fixed_abcConvert :               -- `collections.abc.Callable[[], str]`, `collections.abc.Callable[[list], str]`
+    check demoEnv (cb (some []) (.cls 4) .abc) (fn [] (.ty (.cls 4))) = .ok true ∧
+    check demoEnv (cb (some [.cls 5]) (.cls 4) .abc) (fn [⟨.ty (.cls 5), false⟩] (.ty (.cls 4))) = .ok true := by decide
+
+/-- **F1** (`callableWithoutName`): a callable without `__name__` is checked by its signature exactly like a named one -/
+theorem callable_without_name_checked (env : Env) (sig : SigR) (coro : Bool) (e : Exp) :
+    checkCallable env (.callable .missing sig coro) e = checkCallable env (.callable .other sig coro) e :=
+  checkCallable_missing_name env sig coro e
 
 /-! ## C02: spelling independence -/
 
-/-- **Callable spelling (guarded).** `collections.abc.Callable[...]` reaches the same checker as `typing.Callable[...]`, with
-    the same verdict for every value, whenever `convert_to_typing_types` succeeds (`...` or exactly one parameter type, and
-    no bare `list` / `dict` / … among the arguments). -/
-theorem spelling_invariant_partial (env : Env) (w : Wrap) (e : Exp) (v : Val) (h : abcRoute env e = none) :
+/-- **F2, Callable spelling.** `collections.abc.Callable[...]` reaches the same checker as `typing.Callable[...]` with the same
+    verdict — for every arity, every argument type (a bare `list` included), every value, every wrapper. -/
+theorem spelling_invariant (env : Env) (w : Wrap) (e : Exp) (v : Val) :
     check env ⟨w, .abc, e⟩ v = check env ⟨w, .typing, e⟩ v := by
-  have hl : ∀ l, leafCheck env .abc e l = leafCheck env .typing e l := by intro l; simp [leafCheck, h]
+  have hl : ∀ l, leafCheck env .abc e l = leafCheck env .typing e l := by intro l; simp [leafCheck_eq]
   have hlist : ∀ xs, checkList env .abc e xs = checkList env .typing e xs := by
     intro xs; induction xs with
     | nil => rfl
@@ -309,20 +328,15 @@ theorem spelling_invariant_partial (env : Env) (w : Wrap) (e : Exp) (v : Val) (h
   unfold check
   cases w <;> simp only [hl, hlist, hdict]
 
-/-- the full statement: the verdict never depends on the Callable spelling -/
+/-- the full statement, which was false for the unrepaired tree -/
 def spelling_invariant_full : Prop :=
   ∀ (env : Env) (w : Wrap) (e : Exp) (v : Val), check env ⟨w, .abc, e⟩ v = check env ⟨w, .typing, e⟩ v
 
-theorem spelling_invariant_full_false : ¬ spelling_invariant_full := by
-  intro h
-  have := h demoEnv .bare ⟨some [], .cls 4⟩ (fn [] (.ty (.cls 4)))
-  revert this
-  decide
+theorem spelling_invariant_full_holds : spelling_invariant_full := spelling_invariant
 
-/-- when the conversion fails, the `collections.abc` spelling raises for *every* leaf value — also for `None` inside
-    `Optional[...]` and for values the typing spelling accepts -/
-theorem abc_spelling_raises (env : Env) (e : Exp) (l : CVal) (ex : Exc) (h : abcRoute env e = some ex) :
-    leafCheck env .abc e l = .raised ex := by simp [leafCheck, h]
+theorem spelling_invariant_verdict (env : Env) (w : Wrap) (e : Exp) (v : Val) :
+    assertValue env ⟨w, .abc, e⟩ v = assertValue env ⟨w, .typing, e⟩ v := by
+  unfold assertValue; rw [spelling_invariant]
 
 /-- **Spelling of the types inside.** `Union[a, b]` / `Optional[a]` / `a | b` and the order of Union members in the
     *expected* types: same verdict (unconditionally), and the spec does not look at any spelling. -/
@@ -372,16 +386,13 @@ theorem pairing_readings_agree (ps : List FParam) (ts : List TA) (h : requiredFi
 theorem callable_complete {env : Env} (wf : env.WF) (x : Expected) (v : Val)
     (hg : Guard env x v) (h : conforms env x v = true) : check env x v = .ok true := callable_complete_partial wf x v hg h
 
-/-- `spelling_invariant` = the guarded Callable-spelling theorem (the unguarded statement `spelling_invariant_full` is false) -/
-theorem spelling_invariant (env : Env) (w : Wrap) (e : Exp) (v : Val) (h : abcRoute env e = none) :
-    check env ⟨w, .abc, e⟩ v = check env ⟨w, .typing, e⟩ v := spelling_invariant_partial env w e v h
-
 /-! ## non-vacuity: concrete instances on both sides of every theorem -/
 
 -- accepted and conforming: `def f(a: int, b: str) -> bool` vs `Callable[[int, str], bool]` (the docstring example)
 example : check demoEnv (cb (some [.cls 2, .cls 4]) (.cls 3)) (fn [pInt, pStr] (.ty (.cls 3))) = .ok true := by decide
 example : conforms demoEnv (cb (some [.cls 2, .cls 4]) (.cls 3)) (fn [pInt, pStr] (.ty (.cls 3))) = true := by decide
 example : Guard demoEnv (cb (some [.cls 2, .cls 4]) (.cls 3)) (fn [pInt, pStr] (.ty (.cls 3))) := by decide
+example : ¬ Guard demoEnv (cb none .any) (fn [pInt] (.ty (.cls 4)) true) := by decide
 -- one parameter type changed to an unrelated class / arity -1 / arity +1 / return type changed: rejected, not conforming
 example : check demoEnv (cb (some [.cls 2, .cls 4]) (.cls 3)) (fn [pInt, pInt] (.ty (.cls 3))) = .ok false := by decide
 example : conforms demoEnv (cb (some [.cls 2, .cls 4]) (.cls 3)) (fn [pInt, pInt] (.ty (.cls 3))) = false := by decide
@@ -415,7 +426,7 @@ example : check demoEnv (cb none .any .typing .optional) (.leaf .none) = .ok tru
 example : check demoEnv (cb (some []) (.cls 1) .typing .dictStrOf) (.dict [(true, .callable .other (.ok [] .none) false)]) = .ok true := by decide
 example : check demoEnv (cb (some []) (.cls 1) .typing .dictStrOf) (.dict [(false, .callable .other (.ok [] .none) false)]) = .ok false := by decide
 -- spelling: one parameter converts, `Union[int, str]` = `str | int`
-example : abcRoute demoEnv ⟨some [.cls 2], .cls 4⟩ = none := by decide
+example : abcRoute demoEnv ⟨some [.cls 2, .cls 5], .cls 4⟩ = none := by decide
 example : RespellExp ⟨some [.union false [2, 4]], .cls 4⟩ ⟨some [.union true [4, 2]], .cls 4⟩ :=
   ⟨.cons (.union _ _ _ _ (by intro c; simp [or_comm])) .nil, .cls 4⟩
 example : requiredFirst [pInt, ⟨.empty, true⟩] = true ∧ requiredFirst [⟨.empty, true⟩, pInt] = false := by decide
